@@ -2,7 +2,7 @@
 # usage: runmutant.sh <patch.diff> <property>...
 # Applies the patch to a scratch copy of /repo's working tree and runs the quick checks there.
 # Prints one line per property: <prop> exit=<code> and the VIOLATION lines.
-patch=$1; shift
+patch=$(readlink -f "$1"); shift
 tmp=$(mktemp -d /tmp/mutant.XXXXXX)
 rsync -a --exclude .git /repo/ $tmp/repo/
 ( cd $tmp/repo && git init -q . 2>/dev/null; patch -p1 -s < "$patch" ) || { echo "patch failed"; rm -rf $tmp; exit 3; }
